@@ -154,6 +154,10 @@ def ensure_facts(verbose=True, _retry=0):
     fcntl.flock(lock, fcntl.LOCK_EX)
     try:
         if os.path.exists(os.path.join(d, "OK")):
+            try:
+                os.utime(d)          # mark as in use (pruning is by age)
+            except OSError:
+                pass
             return d
         failed = os.path.join(d, "FAILED")
         if os.path.exists(failed):
@@ -190,6 +194,9 @@ def ensure_facts(verbose=True, _retry=0):
         # prune: keep the newest three fact dirs
         dirs = sorted(glob.glob(os.path.join(CACHE, "facts-*")), key=os.path.getmtime, reverse=True)
         for old in dirs[12:]:
+            # never remove a cache entry that another check may still be reading: only entries unused for an hour
+            if time.time() - os.path.getmtime(old) < 3600:
+                continue
             if os.path.exists(os.path.join(old, "OK")) or os.path.exists(os.path.join(old, "FAILED")):
                 shutil.rmtree(old, ignore_errors=True)
                 try:
